@@ -31,7 +31,13 @@ BODIES = [
 # code strings (`-c` / stdin): CODES[0] equals script body 1; CODES[1] / CODES[2] differ in letter
 # case only; the trailing expression statement is displayed in "single" mode but not in "exec" mode
 CODES = [BODIES[1], "print('ka'); 7", "print('KA'); 7"]
-MARKERS = {"M0": ("body", 0), "M1": ("body", 1), "M2": ("body", 2), "ka": ("code", 1), "KA": ("code", 2)}
+MARKERS = {"M0": ("body", 0), "M1": ("body", 1), "M2": ("body", 2), "ka": ("code", 1), "KA": ("code", 2), "MO": ("other", 0)}
+# a second, never edited real script that the symlink l.xsh can be re-pointed to (older than everything)
+OTHER_BODY = "print('MO')\nxo = 1\n"
+OTHER_TICK, LINK_TICK = 3, 5
+# how a script is addressed: directly, through a symlink to the file, through a symlinked directory
+# component, or through the same symlink re-pointed to the other real file
+VIAS = {"direct": ("s.xsh", "s.xsh"), "link": ("l.xsh", "s.xsh"), "dirlink": ("ld/s.xsh", "s.xsh"), "link-other": ("l.xsh", "o.xsh")}
 NAMESPACES = {"fresh": {}, "shadow": {"rec": 5, "l": 2}}
 FOREIGN_MARK = "FOREIGN-ENTRY-EXECUTED"
 
@@ -78,6 +84,33 @@ class Rig:
         self._disc = {}
         self.threads0 = threading.active_count()
         self.caps_ok = self.caps_ok and self._perm_probe()
+        self.setup_links()
+
+    def setup_links(self):
+        """o.xsh (the other real script, old) and ld -> . (a symlinked directory component).  Symlinks
+        carry their OWN logical mtime (lstat), older than every source and cache file."""
+        o = os.path.join(self.srcdir, "o.xsh")
+        with open(o, "w", encoding="utf-8") as f:
+            f.write(OTHER_BODY)
+        self.set_tick(o, OTHER_TICK)
+        ld = os.path.join(self.srcdir, "ld")
+        if not os.path.islink(ld):
+            os.symlink(".", ld)
+        os.utime(ld, (BASE + LINK_TICK, BASE + LINK_TICK), follow_symlinks=False)
+
+    def address(self, via):
+        """Prepare the addressing mode `via` and return (path to run, real file name).  The file symlink
+        l.xsh is re-created for every run through it, so its target is not part of the state."""
+        path, real = VIAS[via]
+        if path == "l.xsh":
+            l = os.path.join(self.srcdir, "l.xsh")
+            if os.path.lexists(l):
+                os.unlink(l)
+            os.symlink(real, l)
+            os.utime(l, (BASE + LINK_TICK, BASE + LINK_TICK), follow_symlinks=False)
+        if not os.path.exists(os.path.join(self.srcdir, "o.xsh")) or not os.path.islink(os.path.join(self.srcdir, "ld")):
+            self.setup_links()
+        return path, real
 
     def _perm_probe(self):
         p = os.path.join(self.root, "probe")
@@ -120,18 +153,21 @@ class Rig:
             return None
         return t
 
-    def discover(self, kind, text=None, mode="exec"):
+    def discover(self, kind, text=None, mode="exec", via="direct"):
         """Where does the implementation keep the entry of this unit (the script / a code string run in
         a mode)?  Found BY EFFECT: one caching run (every switch on, fresh namespace) into an empty probe
         data directory; the one file that appears, relative to the data directory, is the answer.  The
         harness never re-implements the naming scheme, so two units share an entry exactly when the
         implementation makes them share a file."""
-        key = (kind, text if kind == "code" else None, mode if kind == "code" else "exec")
+        key = (kind, text if kind == "code" else via, mode if kind == "code" else "exec")
         if key not in self._disc:
-            if kind == "script" and not os.path.exists(self.src_path()):
-                self.write_source(BODIES[0], 10)
+            script = None
+            if kind == "script":
+                if not os.path.exists(self.src_path()):
+                    self.write_source(BODIES[0], 10)
+                script = self.address(via)[0]
             self.wipe(self.probedata)
-            r = self._run(self.probedata, kind, text, ALL_ON, "fresh", mode if kind == "code" else "exec")
+            r = self._run(self.probedata, kind, text, ALL_ON, "fresh", mode if kind == "code" else "exec", script=script)
             found = []
             for dp, _dns, fns in os.walk(self.probedata):
                 for n in fns:
@@ -225,17 +261,19 @@ class Rig:
             res["escaped_at"] = escaped_at  # informational, not part of same_outcome()
         return res
 
-    def run_real(self, kind, text, sw, ns, mode):
-        return self._run(self.data, kind, text, sw, ns, mode)
+    def run_real(self, kind, text, sw, ns, mode, script=None):
+        return self._run(self.data, kind, text, sw, ns, mode, script=script)
 
-    def reference(self, kind, text, ns, mode):
+    def reference(self, kind, text, ns, mode, script=None):
         """The uncached run: every switch off, an empty data directory, a fresh namespace.  `text` is
         the source as it is on disk at this moment (memoised by content)."""
         key = (kind, text, ns, mode)
         if key not in self._ref:
-            if kind == "script" and self.read_source() != text:
-                raise common.ToolError("reference asked for a text that is not the source on disk")
-            r = self._run(self.refdata, kind, text, ALL_OFF, ns, mode)
+            if kind == "script":
+                with open(os.path.join(self.srcdir, script or self.SRC), encoding="utf-8") as f:
+                    if f.read() != text:
+                        raise common.ToolError("reference asked for a text that is not the source on disk")
+            r = self._run(self.refdata, kind, text, ALL_OFF, ns, mode, script=script)
             if os.listdir(self.refdata):
                 self.wipe(self.refdata)
             if r["escaped"]:
@@ -285,7 +323,21 @@ def foreign_header(kind):
         return xv.encode() + b"\n" + f"{vi[0]}.{vi[1] - 1}.{vi[2]}.final.0".encode() + b"\n"
     if kind == "py-level":  # same major.minor.micro, other release level
         return xv.encode() + b"\n" + f"{vi[0]}.{vi[1]}.{vi[2]}.candidate.1".encode() + b"\n"
+    # stamps that are proper EXTENSIONS / proper PREFIXES of the running one, on one line at a time
+    # (0.24.1 vs 0.24.10, 0.24.1.dev3, 0.24. - a comparison by startswith / prefix match accepts them)
+    line, _, how = kind.partition("+")
+    if how in EXTENSIONS and line in ("xonsh", "py"):
+        l1, l2 = current_header().split(b"\n")[:2]
+        cur = l1 if line == "xonsh" else l2
+        new = cur[:-1] if how == "prefix" else cur + {"digit": b"0", "dev": b".dev3"}[how]
+        if new == cur:
+            raise AssertionError(kind)
+        return (new + b"\n" + l2 + b"\n") if line == "xonsh" else (l1 + b"\n" + new + b"\n")
     raise AssertionError(kind)
+
+
+EXTENSIONS = ("digit", "dev", "prefix")
+NEAR_STAMPS = [f"{line}+{how}" for line in ("xonsh", "py") for how in EXTENSIONS]
 
 
 def foreign_payload():
